@@ -253,13 +253,38 @@ type c20Step struct {
 // c20Run executes the sequence on a fresh client. With skip != nil the calls
 // at those indices are left out (the twin). check, when non-nil, is invoked
 // after every Update with the state around the call.
-func c20Run(c c20Case, skip map[int]bool, check func(i int, o c20Obs, before, after, ret *coordinate.Coordinate, sb, sa coordinate.ClientStats, err error) bool) ([]c20Step, bool) {
-	rand.Seed(0x5eed)
+const c20Seed = 0x5eed
+
+// c20Stream maps the i-th value of the seeded stream to i, so that one draw
+// after a run tells how many values the run consumed from the global source.
+var c20Stream = func() map[int64]int {
+	m := map[int64]int{}
+	r := rand.New(rand.NewSource(c20Seed))
+	for i := 0; i < 1<<16; i++ {
+		m[r.Int63()] = i
+	}
+	return m
+}()
+
+// c20Consumed draws once from the global source and returns how many values
+// had been consumed since rand.Seed(c20Seed); -1 if that cannot be told.
+func c20Consumed() int {
+	if k, ok := c20Stream[rand.Int63()]; ok {
+		return k
+	}
+	return -1
+}
+
+func c20Run(c c20Case, skip map[int]bool, check func(i int, o c20Obs, before, after, ret *coordinate.Coordinate, sb, sa coordinate.ClientStats, err error) bool) (tr []c20Step, ok bool) {
+	rand.Seed(c20Seed)
 	cl, err := coordinate.NewClient(c20Config(c))
 	if err != nil {
 		return nil, false
 	}
-	var tr []c20Step
+	defer func() {
+		// last entry: consumption of the global random source by this run
+		tr = append(tr, c20Step{idx: -1, resets: c20Consumed()})
+	}()
 	for i, o := range c.Obs {
 		if skip[i] {
 			continue
@@ -398,18 +423,27 @@ func bodyC20(c c20Case, x *vkit.Ctx) {
 		x.Inconclusive("run not reproducible (global math/rand disturbed or rand.Seed ineffective)")
 		return
 	}
+	// every run ends with the number of values it took from the global
+	// source; rejected calls take none, so all four runs must agree. A
+	// difference means something else drew from the source during a run
+	// (shifting the stream the client saw): not judgeable.
+	kA, kA2, kB, kB2 := trA[len(trA)-1].resets, trA2[len(trA2)-1].resets, trB[len(trB)-1].resets, trB2[len(trB2)-1].resets
+	if kA < 0 || kA != kA2 || kA != kB || kA != kB2 {
+		x.Inconclusive("global math/rand consumption differs between runs (disturbed)")
+		return
+	}
 	var trAacc []c20Step
 	for _, s := range trA {
-		if !skip[s.idx] {
+		if !skip[s.idx] { // (keeps the trailing consumption entry, idx -1)
 			trAacc = append(trAacc, s)
 		}
 	}
 	if at, same := c20Same(trAacc, trB); !same {
-		idx := -1
-		if at < len(trB) {
-			idx = trB[at].idx
+		idx, da, db := -1, "", ""
+		if at < len(trB) && at < len(trAacc) {
+			idx, da, db = trB[at].idx, fmt.Sprintf("%+v", trAacc[at]), fmt.Sprintf("%+v", trB[at])
 		}
-		x.Violationf("rejected-call-changed-later-behaviour", "from obs %d on, the client that saw the %d rejected calls behaves differently from a twin that never saw them (hidden state touched by a rejected call)", idx, len(skip))
+		x.Violationf("rejected-call-changed-later-behaviour", "from obs %d on, the client that saw the %d rejected calls behaves differently from a twin that never saw them (hidden state touched by a rejected call): with %s, twin %s; random values consumed %d/%d", idx, len(skip), da, db, kA, kB)
 		return
 	}
 
